@@ -93,6 +93,16 @@ pub enum Input {
     Commands { with_meta: bool, compression: u8, cmds: Vec<(u16, Vec<Arg>)> },
     /// raw bytes on the connection
     Bytes { with_meta: bool, pieces: Vec<Piece> },
+    /// the same kinds of input written in fragments on a real loopback TCP connection served by
+    /// the real `handle_session` behind an accept loop (no blocking commands)
+    Tcp {
+        inner: Box<Input>,
+        frags: Vec<u16>,
+        /// 0 = the client reads the replies, then disconnects; 1 = it disconnects right after writing,
+        /// without reading; 2 = it shuts down its sending direction after writing and keeps reading
+        #[serde(default)]
+        close_mode: u8,
+    },
 }
 
 #[derive(Debug, Clone, Serialize, Deserialize)]
@@ -132,6 +142,24 @@ fn piece() -> impl Strategy<Value = Piece> {
         3 => (prop_oneof![Just(b'*'), Just(b'$')], lens).prop_map(|(ty, len)| Piece::Prefix { ty, len }),
         3 => (0u8..4).prop_map(Piece::Valid),
     ]
+}
+
+fn is_blocking_name(n: u16) -> bool {
+    matches!(NAMES[n as usize % NAMES.len()][0], "BLPOP" | "BRPOP" | "BRPOPLPUSH" | "BZPOPMIN" | "BZPOPMAX")
+}
+
+pub fn tcp_strategy() -> impl Strategy<Value = Input> {
+    (strategy(), prop::collection::vec(prop_oneof![2 => 1u16..8, 2 => 1u16..64, 1 => 64u16..4096], 0..6), prop_oneof![5 => Just(0u8), 3 => Just(1u8), 2 => Just(2u8)]).prop_map(|(inner, frags, close_mode)| {
+        let inner = match inner {
+            Input::Commands { with_meta, compression, cmds } => {
+                // a blocking command waits legitimately for as long as the client asked: not a wedge
+                let cmds: Vec<_> = cmds.into_iter().map(|(n, a)| if is_blocking_name(n) { (39u16, a) } else { (n, a) }).collect();
+                Input::Commands { with_meta, compression, cmds }
+            }
+            other => other,
+        };
+        Input::Tcp { inner: Box::new(inner), frags, close_mode }
+    })
 }
 
 pub fn strategy() -> impl Strategy<Value = Input> {
@@ -178,20 +206,8 @@ async fn setup(with_meta: bool, compression: u8) -> World {
     world
 }
 
-async fn run_input(input: &Input) -> WorkerResult {
-    use tokio_util::codec::Decoder;
-    use undermoon::protocol::{new_simple_packet_codec, RespCodec, RespPacket};
-    use undermoon::proxy::command::Command as UmCommand;
-    use undermoon::proxy::session::CmdHandler;
-    let (with_meta, compression) = match input {
-        Input::Commands { with_meta, compression, .. } => (*with_meta, *compression),
-        Input::Bytes { with_meta, .. } => (*with_meta, 0),
-    };
-    let world = setup(with_meta, compression).await;
-    let proxy = world.net.proxy(PROXY).expect("proxy");
-    let session = proxy.new_session();
-    // the byte stream of the connection
-    let stream: Vec<u8> = match input {
+fn stream_of(input: &Input) -> Vec<u8> {
+    match input {
         Input::Bytes { pieces, .. } => pieces.iter().flat_map(|p| p.bytes()).collect(),
         Input::Commands { cmds, .. } => {
             let mut out = vec![];
@@ -207,7 +223,231 @@ async fn run_input(input: &Input) -> WorkerResult {
             }
             out
         }
+        Input::Tcp { inner, .. } => stream_of(inner),
+    }
+}
+
+const TCP_WALL: Duration = Duration::from_secs(6);
+/// how often a missed wall-clock expectation is re-tried in a fresh world before it counts (1 while shrinking)
+static TCP_ATTEMPTS: std::sync::atomic::AtomicUsize = std::sync::atomic::AtomicUsize::new(3);
+
+/// one attempt of a TCP case; Err(..) = a bounded-time expectation was missed (re-tried by the caller)
+async fn tcp_attempt(inner: &Input, frags: &[u16], close_mode: u8, stream: &[u8]) -> Result<(usize, bool), (String, String)> {
+    use crate::engines::codec::{ref_parse, Verdict};
+    use std::sync::atomic::{AtomicUsize, Ordering};
+    use std::sync::Arc;
+    use tokio::io::{AsyncReadExt, AsyncWriteExt};
+    use undermoon::proxy::session::handle_session;
+    let (with_meta, compression) = match inner {
+        Input::Commands { with_meta, compression, .. } => (*with_meta, *compression),
+        Input::Bytes { with_meta, .. } => (*with_meta, 0),
+        Input::Tcp { .. } => (false, 0),
     };
+    let world = setup(with_meta, compression).await;
+    let proxy = world.net.proxy(PROXY).expect("proxy");
+    let listener = tokio::net::TcpListener::bind("127.0.0.1:0").await.map_err(|e| ("harness:bind".to_string(), e.to_string()))?;
+    let addr = listener.local_addr().map_err(|e| ("harness:bind".to_string(), e.to_string()))?;
+    let ended = Arc::new(AtomicUsize::new(0));
+    let ended2 = ended.clone();
+    let proxy2 = proxy.clone();
+    // what the server's accept loop does: one task per accepted connection
+    let acceptor = tokio::spawn(async move {
+        loop {
+            let Ok((sock, _)) = listener.accept().await else { break };
+            let _ = sock.set_nodelay(true);
+            let session = Arc::new(proxy2.new_session());
+            let ended = ended2.clone();
+            tokio::spawn(async move {
+                let _ = handle_session(session, sock, None).await;
+                ended.fetch_add(1, Ordering::SeqCst);
+            });
+        }
+    });
+    // what a strict RESP reader expects on this stream
+    let mut expected = 0usize;
+    let mut pos = 0usize;
+    let mut fully_valid = true;
+    // the reference recognizer recurses per nesting level: deeply nested input (which the proxy must
+    // refuse or wait on - it is never a run of complete commands) is not handed to it
+    let deep = {
+        let mut run = 0usize;
+        let mut max = 0usize;
+        let mut i = 0;
+        while i < stream.len() {
+            if stream[i] == b'*' {
+                let mut j = i + 1;
+                while j < stream.len() && stream[j].is_ascii_digit() {
+                    j += 1;
+                }
+                if j + 1 < stream.len() && stream[j] == b'\r' && stream[j + 1] == b'\n' && j > i + 1 {
+                    run += 1;
+                    max = max.max(run);
+                    i = j + 2;
+                    continue;
+                }
+            }
+            run = 0;
+            i += 1;
+        }
+        max > 64
+    };
+    if deep {
+        fully_valid = false;
+    }
+    while !deep && pos < stream.len() {
+        match ref_parse(&stream[pos..]) {
+            Verdict::Complete(_, used) => {
+                expected += 1;
+                pos += used;
+            }
+            _ => {
+                fully_valid = false;
+                break;
+            }
+        }
+    }
+    let early_close = close_mode == 1;
+    let res: Result<(usize, bool), (String, String)> = async {
+        let mut sock = tokio::net::TcpStream::connect(addr).await.map_err(|e| ("harness:connect".to_string(), e.to_string()))?;
+        let _ = sock.set_nodelay(true);
+        let mut other = tokio::net::TcpStream::connect(addr).await.map_err(|e| ("harness:connect".to_string(), e.to_string()))?;
+        let (mut rd, mut wr) = sock.split();
+        let deadline = tokio::time::Instant::now() + TCP_WALL;
+        let mut closed = false;
+        let mut replies = 0usize;
+        let writer = async {
+            let mut pos = 0;
+            let mut fi = 0;
+            while pos < stream.len() {
+                let n = if frags.is_empty() { stream.len() - pos } else { (frags[fi % frags.len()].max(1) as usize).min(stream.len() - pos) };
+                fi += 1;
+                if wr.write_all(&stream[pos..pos + n]).await.is_err() {
+                    break; // the proxy closed the connection: legitimate after a protocol error
+                }
+                pos += n;
+                tokio::task::yield_now().await;
+            }
+            let _ = wr.flush().await;
+            if close_mode == 2 {
+                let _ = wr.shutdown().await;
+            }
+        };
+        let reader = async {
+            let mut buf: Vec<u8> = vec![];
+            loop {
+                // nothing more is owed once every complete request of the valid prefix was answered
+                if replies >= expected || early_close {
+                    break;
+                }
+                let mut chunk = [0u8; 16384];
+                match tokio::time::timeout_at(deadline, rd.read(&mut chunk)).await {
+                    Ok(Ok(0)) | Ok(Err(_)) => {
+                        closed = true;
+                        break;
+                    }
+                    Ok(Ok(n)) => buf.extend_from_slice(&chunk[..n]),
+                    Err(_) => break,
+                }
+                while let Verdict::Complete(_, used) = ref_parse(&buf) {
+                    buf.drain(..used);
+                    replies += 1;
+                }
+            }
+        };
+        let _ = tokio::time::timeout_at(deadline + Duration::from_millis(200), futures::future::join(writer, reader)).await;
+        let _ = fully_valid;
+        if replies < expected && !closed && !early_close {
+            return Err(("C16:tcp-request-neither-answered-nor-closed".to_string(), format!("{} complete requests were written (before any malformed or incomplete data), {} replies arrived within {} s and the connection was not closed", expected, replies, TCP_WALL.as_secs())));
+        }
+        // other connections keep being served - also while the first one is still open
+        let ping = async {
+            other.write_all(b"*1\r\n$4\r\nPING\r\n").await.ok()?;
+            let mut b = [0u8; 64];
+            let n = other.read(&mut b).await.ok()?;
+            Some(b[..n].to_vec())
+        };
+        match tokio::time::timeout(TCP_WALL, ping).await {
+            Ok(Some(b)) if b.starts_with(b"+") => {}
+            other => return Err(("C16:other-connection-not-served".to_string(), format!("PING on a second TCP connection was not answered within {} s: {:?}", TCP_WALL.as_secs(), other.map(|o| o.map(|b| String::from_utf8_lossy(&b).to_string()))))),
+        }
+        drop(other);
+        drop(sock);
+        // both sessions must end once their clients are gone
+        let t0 = tokio::time::Instant::now();
+        while ended.load(Ordering::SeqCst) < 2 {
+            if t0.elapsed() > TCP_WALL {
+                return Err(("C16:tcp-session-never-ends".to_string(), format!("{} s after both clients closed their connections only {} of 2 session tasks had ended", TCP_WALL.as_secs(), ended.load(Ordering::SeqCst))));
+            }
+            tokio::time::sleep(Duration::from_millis(2)).await;
+        }
+        Ok((replies, closed))
+    }
+    .await;
+    acceptor.abort();
+    drop(world);
+    res
+}
+
+async fn run_tcp(inner: &Input, frags: &[u16], close_mode: u8) -> WorkerResult {
+    let stream = stream_of(inner);
+    let received = stream.len();
+    let bound = MEM_CONST + MEM_FACTOR * received;
+    crate::alloc::SINGLE_LIMIT.store(bound, std::sync::atomic::Ordering::Relaxed);
+    let base = crate::alloc::mark();
+    let _ = drain_panic_log();
+    let mut fail: Option<(String, String)> = None;
+    let mut requests = 0;
+    // a missed wall-clock expectation is only believed after three attempts in fresh worlds
+    let attempts = TCP_ATTEMPTS.load(std::sync::atomic::Ordering::Relaxed);
+    for attempt in 0..attempts {
+        match tcp_attempt(inner, frags, close_mode, &stream).await {
+            Ok((replies, _closed)) => {
+                requests = replies;
+                fail = None;
+                break;
+            }
+            Err((sig, msg)) if sig.starts_with("harness:") => {
+                return WorkerResult { ok: true, signature: sig, message: msg, peak: 0, requests: 0, reached_executor: false };
+            }
+            Err(e) => {
+                fail = Some(e);
+                if attempt + 1 < attempts {
+                    tokio::time::sleep(Duration::from_millis(50)).await;
+                }
+            }
+        }
+    }
+    tokio::time::sleep(Duration::from_millis(20)).await;
+    let peak = crate::alloc::peak_since(base);
+    crate::alloc::SINGLE_LIMIT.store(usize::MAX, std::sync::atomic::Ordering::Relaxed);
+    let panics = drain_panic_log();
+    if let Some(p) = panics.first() {
+        fail = Some((panic_signature(p).replace("panic@", "C16:panic@"), format!("panic while handling the input: {}", p)));
+    }
+    if fail.is_none() && peak > bound {
+        fail = Some(("C16:memory-amplification".into(), format!("peak live memory attributable to the connection was {} bytes for {} bytes received (bound {} = 16 MiB + 4096 x received)", peak, received, bound)));
+    }
+    match fail {
+        Some((signature, message)) => WorkerResult { ok: false, signature, message, peak, requests, reached_executor: requests > 0 },
+        None => WorkerResult { ok: true, signature: String::new(), message: String::new(), peak, requests, reached_executor: requests > 0 },
+    }
+}
+
+async fn run_input(input: &Input) -> WorkerResult {
+    use tokio_util::codec::Decoder;
+    use undermoon::protocol::{new_simple_packet_codec, RespCodec, RespPacket};
+    use undermoon::proxy::command::Command as UmCommand;
+    use undermoon::proxy::session::CmdHandler;
+    let (with_meta, compression) = match input {
+        Input::Commands { with_meta, compression, .. } => (*with_meta, *compression),
+        Input::Bytes { with_meta, .. } => (*with_meta, 0),
+        Input::Tcp { inner, frags, close_mode } => return run_tcp(inner, frags, *close_mode).await,
+    };
+    let world = setup(with_meta, compression).await;
+    let proxy = world.net.proxy(PROXY).expect("proxy");
+    let session = proxy.new_session();
+    // the byte stream of the connection
+    let stream: Vec<u8> = stream_of(input);
     let received = stream.len();
     let bound = MEM_CONST + MEM_FACTOR * received;
     crate::alloc::SINGLE_LIMIT.store(bound, std::sync::atomic::Ordering::Relaxed);
@@ -313,6 +553,12 @@ pub fn worker_main() {
     let mut out = std::io::stdout();
     for line in stdin.lock().lines() {
         let Ok(line) = line else { break };
+        // a leading '!' = the parent is shrinking: one attempt per wall-clock expectation is enough
+        let (line, attempts) = match line.strip_prefix('!') {
+            Some(rest) => (rest.to_string(), 1),
+            None => (line, 3),
+        };
+        TCP_ATTEMPTS.store(attempts, std::sync::atomic::Ordering::Relaxed);
         let Ok(input) = serde_json::from_str::<Input>(&line) else {
             let _ = writeln!(out, "{}", serde_json::to_string(&WorkerResult { ok: false, signature: "harness:decode".into(), message: "cannot decode case".into(), peak: 0, requests: 0, reached_executor: false }).unwrap());
             let _ = out.flush();
@@ -323,7 +569,8 @@ pub fn worker_main() {
         let res = std::thread::Builder::new()
             .stack_size(2 << 20)
             .spawn(move || {
-                let rt = world_runtime();
+                // TCP cases run in real time (real sockets), everything else on the virtual clock
+                let rt = if matches!(input, Input::Tcp { .. }) { tokio::runtime::Builder::new_current_thread().enable_all().build().expect("rt") } else { world_runtime() };
                 let r = rt.block_on(run_input(&input));
                 drop(rt);
                 r
@@ -392,13 +639,14 @@ fn exec_once(input: &Input) -> Exec {
             *w = Some(spawn_worker());
         }
         let proc_ = w.as_mut().expect("worker");
-        let line = serde_json::to_string(input).expect("ser");
+        let line = format!("{}{}", if IS_SHRINKING.with(|f| f.get()) { "!" } else { "" }, serde_json::to_string(input).expect("ser"));
         if writeln!(proc_.stdin, "{}", line).is_err() || proc_.stdin.flush().is_err() {
             let _ = proc_.child.kill();
             *w = None;
             return Exec::Died("worker pipe closed before the case was sent".into());
         }
-        match proc_.lines.recv_timeout(WALL_LIMIT) {
+        let limit = if matches!(input, Input::Tcp { .. }) { WALL_LIMIT * 10 } else { WALL_LIMIT };
+        match proc_.lines.recv_timeout(limit) {
             Ok(l) => match serde_json::from_str::<WorkerResult>(&l) {
                 Ok(r) => Exec::Result(r),
                 Err(e) => Exec::Died(format!("unreadable worker answer: {}", e)),
@@ -432,6 +680,7 @@ fn exec_once(input: &Input) -> Exec {
 
 fn describe(input: &Input) -> String {
     match input {
+        Input::Tcp { inner, frags, close_mode } => format!("over loopback TCP in write fragments {:?}{}: {}", frags, ["", ", client disconnects without reading", ", client shuts down its sending direction and keeps reading"][*close_mode as usize % 3], describe(inner)),
         Input::Commands { cmds, with_meta, compression } => {
             let v: Vec<String> = cmds
                 .iter()
@@ -469,7 +718,12 @@ fn death_signature(input: &Input, how: &str) -> String {
     } else {
         "process-died"
     };
+    let input = match input {
+        Input::Tcp { inner, .. } => inner.as_ref(),
+        other => other,
+    };
     let class = match input {
+        Input::Tcp { .. } => "tcp",
         Input::Bytes { pieces, .. } => {
             if pieces.iter().any(|p| matches!(p, Piece::Nest { depth, .. } if *depth >= 1000)) {
                 "deep-nesting"
@@ -495,13 +749,28 @@ fn death_signature(input: &Input, how: &str) -> String {
 
 pub fn check(input: &Input, obs: &mut Obs) -> Result<(), Fail> {
     let shown = describe(input);
-    match exec_once(input) {
+    let t0 = std::time::Instant::now();
+    let res = exec_once(input);
+    if t0.elapsed() > Duration::from_secs(1) {
+        obs.class("slower-than-1s-wall");
+        if std::env::var("VERIF_SLOW").is_ok() {
+            eprintln!("SLOW {:?}: {}", t0.elapsed(), shown.chars().take(400).collect::<String>());
+        }
+    }
+    match res {
         Exec::Result(r) => {
             if r.reached_executor {
                 obs.nontrivial = true;
                 obs.class("reached-executor");
             }
-            if matches!(input, Input::Bytes { pieces, .. } if pieces.iter().any(|p| matches!(p, Piece::Prefix { .. } | Piece::Nest { .. }))) {
+            let inner_input = match input {
+                Input::Tcp { inner, .. } => inner.as_ref(),
+                other => other,
+            };
+            if r.signature.starts_with("harness:") {
+                obs.class(format!("skipped:{}", r.signature));
+            }
+            if matches!(inner_input, Input::Bytes { pieces, .. } if pieces.iter().any(|p| matches!(p, Piece::Prefix { .. } | Piece::Nest { .. }))) {
                 obs.nontrivial = true;
                 obs.class("hostile-length-prefix-or-nesting");
             }
@@ -527,6 +796,7 @@ pub fn check(input: &Input, obs: &mut Obs) -> Result<(), Fail> {
                 Input::Commands { cmds, .. } if cmds.iter().any(|(n, _)| NAMES[*n as usize % NAMES.len()][0].starts_with("EVAL")) => "eval-numkeys",
                 Input::Commands { .. } => "command",
                 Input::Bytes { .. } => "bytes",
+                Input::Tcp { .. } => "tcp",
             };
             Err(Fail::new(
                 format!("C16:hang input={}", class),
@@ -537,6 +807,8 @@ pub fn check(input: &Input, obs: &mut Obs) -> Result<(), Fail> {
 }
 
 pub const RULE: &str = "inputs executed in child worker processes (abort/stack overflow/refused allocation = observation): (a) byte streams: raw bytes over a RESP-biased alphabet, hostile length prefixes (*2^31, *2^62, $2^63-1, *-2, *10^9), nesting '*1\\r\\n' up to depth 200000, valid pipelines, truncations; (b) well-formed commands of every family the executor special-cases (UMCTL sub-commands, UMFORWARD, UMSYNC, CLUSTER, CONFIG, AUTH, EVAL/EVALSHA numkeys, MGET/MSET/MSETNX/DEL/EXISTS, B*POP timeouts, string commands with compression on) with arguments from {missing, empty, non-UTF-8, 0, -1, 2^62, 2^63-1, 2^64-1, 2^64, long digit strings, keywords, keys, long strings}, before and after metadata is set; fed through the real decoder and the real Session/ForwardHandler; oracle: process alive, no panic on any thread, peak live memory <= 16 MiB + 4096 x bytes received (a counting allocator refuses larger single requests), every request completes in bounded time (8 s wall, triple-confirmed; 3600 virtual s), a second connection still gets its PING answered; non-trivial = the input reached the executor or carries a hostile length prefix / nesting; distinct = hash of the input";
+
+pub const RULE_TCP: &str = "[tcp] the same input classes (blocking commands excluded) written in generated fragments (1 B .. 4 KiB) on a real loopback TCP connection (30 %: the client disconnects right after writing, without reading; 20 %: it shuts down its sending direction and keeps reading) accepted by a loop that spawns the real handle_session per connection, in child worker processes; oracle: every complete request that precedes any malformed or incomplete data is answered, or the connection is closed, within 6 s wall (three attempts in fresh worlds before it counts); a PING on a second TCP connection is answered while the first is still open; after the clients disconnect both session tasks end; no panic on any thread, process alive, memory bound as above; non-trivial = at least one reply arrived or the input carries a hostile length prefix / nesting";
 
 pub const RULE_FUZZ: &str = "libFuzzer (coverage-guided, ASan, fixed -seed and -runs per worker process, fresh corpus seeded with golden command pipelines and a command dictionary): the bytes of one client connection (first byte: metadata installed or not), up to 2 KiB, fed through the real decoder and the real Session/ForwardHandler inside the fuzzer process; in-target oracle: every request completes (virtual time), a second connection is served, no panic on any thread (libFuzzer aborts on any panic), no allocation above 512 MiB, no input slower than 60 s; every crash artifact is re-decided by the child-worker oracle (the proptest sub-check's) before it is reported";
 
@@ -550,8 +822,12 @@ pub fn run(ctx: &Ctx, findings: &Findings) -> PropReport {
         if let Some(r) = replay_case::<Input>(ctx, findings, "inputs", &v, &check) {
             subs.push(r);
         }
+        if let Some(r) = replay_case::<Input>(ctx, findings, "tcp", &v, &check) {
+            subs.push(r);
+        }
     } else {
         subs.push(drive(ctx, findings, "inputs", RULE, ctx.cases(40000, 800000), strategy, &check));
+        subs.push(drive(ctx, findings, "tcp", RULE_TCP, ctx.cases(4000, 80000), tcp_strategy, &check));
         if ctx.tier == Tier::Thorough {
             let to_input = |bytes: &[u8]| Input::Bytes { with_meta: bytes.first().map(|b| b & 1 == 1).unwrap_or(false), pieces: vec![Piece::Raw(bytes.get(1..).unwrap_or(&[]).to_vec())] };
             let spec = crate::fuzzing::FuzzSpec {
@@ -579,7 +855,7 @@ pub fn run(ctx: &Ctx, findings: &Findings) -> PropReport {
         level: "exploration",
         subs,
         assumptions: vec![
-            "the session is driven in-process (real decoder + real Session::handle_cmd + real ForwardHandler); the TCP accept loop itself is not in the loop".into(),
+            "sub-check inputs drives the session in-process (real decoder + real Session::handle_cmd + real ForwardHandler); sub-check tcp adds the real handle_session loop over loopback TCP (the accept loop is the harness's own three lines, server.rs' listener setup is not in the loop)".into(),
             "this is the one check where a wall-clock limit is part of the oracle (the property IS a time bound): 8 s per input, four orders of magnitude above the normal cost, confirmed in three fresh processes".into(),
             "worker threads use a 2 MiB stack like tokio's production workers".into(),
         ]
